@@ -389,6 +389,8 @@ def splitmix(seed):
 def judge_curve(ctx, rec, res, g, name):
     c = curve(g)
     A = rec.args
+    if name.endswith("_re"):
+        name = name[:-3]        # the same path, the scalar handed over as a caller-defined type (conversion re-enters the library)
     if name in ("zero", "azero"):
         return expect_point(res, rec, g, None)
     if name in ("one", "aone"):
